@@ -3,9 +3,10 @@
    time loop of run_time_dependent_model with after_nonlinear_convergence/failure, written
    once over a record of numeric operations); proofs: PP.Proofs.C09 (instance: exact real
    arithmetic — floating-point rounding is NOT covered by these theorems). *)
-From Coq Require Import List ZArith Bool Arith Lia Reals Lra Sorted PrimFloat.
+From Coq Require Import List ZArith Bool Arith Lia QArith Reals Qreals Lra Sorted PrimFloat.
 Import ListNotations.
-From PP Require Import Model.C09 Proofs.C09.
+From PP Require Import Model.C09 Model.C09_ext Proofs.C09 Proofs.C09_transfer Proofs.C09_QR
+                       Proofs.C09_const Proofs.C09_boundary.
 Local Open Scope R_scope.
 
 (* For EVERY argument tuple the (modelled) constructor accepts with constant_dt=False and
@@ -156,3 +157,198 @@ Example C09_regression_binary64 :
   | inr _ => false
   end = true.
 Proof. vm_compute. reflexivity. Qed.
+
+
+(* ======================= constant time step (constant_dt = True) ======================= *)
+(* [simulate_full] = the COMPLETE constructor (Model/C09_ext.v adds the np.arange /
+   searchsorted / isclose compatibility test of dt_init with the schedule) followed by the
+   time loop.  For every accepted argument tuple with constant_dt=True, non-negative
+   tolerances and a step more than twice the isclose tolerance (at final time + dt), every
+   schedule and every event sequence:
+   (1) the k-th accepted time is t0 + (k+1)*dt;  (2) accepted times strictly increase;
+   (3) each is <= the final time or within the constructor's tolerance of it;
+   (4) if the loop finishes, every scheduled time is within the constructor's tolerance
+       (np.isclose(scheduled, simulated): relative to the simulated time) of t0 or of an
+       accepted time;
+   (5) a failed step raises "did not converge" and ends the run;  (6) converged steps never
+       call compute_time_step and nothing else raises. *)
+Theorem C09_constant :
+  forall (a : args R) (sched : list R) (evs : list event)
+         (c : cfg R) (tr : list (event * state R * out R)) (st : stop),
+    simulate_full R ROps RExt a sched evs = inl (c, (tr, st)) ->
+    a_constant a = true ->
+    0 <= a_rtol a -> 0 <= a_atol a ->
+    2 * (a_atol a + a_rtol a * Rabs (last sched 0 + a_dt_init a)) < a_dt_init a ->
+    let t0 := nth 0 sched 0 in
+    let d := a_dt_init a in
+    let acc := accepted R tr in
+    (forall k, (k < length acc)%nat -> nth k acc 0 = t0 + INR (S k) * d) /\
+    StronglySorted Rlt (t0 :: acc) /\
+    (forall t, In t acc -> t <= last sched 0 \/ isclose R ROps c (last sched 0) t = true) /\
+    (st = Finished ->
+       forall sj, In sj sched -> exists t, In t (t0 :: acc) /\ isclose R ROps c sj t = true) /\
+    (forall pre x o post, tr = pre ++ (Failed, x, o) :: post ->
+       o = OErr E_not_converged /\ post = [] /\ st = Raised E_not_converged) /\
+    (forall ev x o, In (ev, x, o) tr ->
+       (exists k, ev = Converged k /\ o = OUnit) \/
+       (ev = Failed /\ o = OErr E_not_converged /\ st = Raised E_not_converged)) /\
+    (forall e, st = Raised e -> e = E_not_converged).
+Proof. exact constant_theorem. Qed.
+Print Assumptions C09_constant.
+
+(* ======================= instance independence ======================= *)
+(* For ANY two instances of the operations record and any map h between their carriers
+   that commutes with the constants and operations and preserves the comparisons, running
+   the whole model (complete constructor, then the time loop) commutes with h. *)
+Theorem C09_instance_independence :
+  forall (A B : Type) (OA : numops A) (OB : numops B) (XA : numext A) (XB : numext B)
+         (h : A -> B),
+    morph A B OA OB h -> morph_ext A B XA XB h ->
+    forall (a : args A) (sched : list A) (evs : list event),
+      simulate_full B OB XB (hargs A B h a) (map h sched) evs
+      = match simulate_full A OA XA a sched evs with
+        | inr e => inr e
+        | inl (c, (tr, st)) => inl (hcfg A B h c, (map (hentry A B h) tr, st))
+        end.
+Proof. intros A B OA OB XA XB h M MX. apply h_simulate_full; assumption. Qed.
+Print Assumptions C09_instance_independence.
+
+(* The exact rational instance (executable; on dyadic inputs where no binary64 operation
+   rounds, the execution correspondence checks that it reproduces the implementation's
+   numbers) and the real instance (the one C09_main / C09_constant are about) are related
+   by such a map, Q2R: what is executed in rational arithmetic IS the run the theorems
+   speak about. *)
+Theorem C09_rational_runs_are_real_runs :
+  (forall (a : args Q) (sched : list Q) (evs : list event),
+     simulate R ROps (hargs Q R Q2R a) (map Q2R sched) evs
+     = match simulate Q QOps a sched evs with
+       | inr e => inr e
+       | inl (c, (tr, st)) => inl (hcfg Q R Q2R c, (map (hentry Q R Q2R) tr, st))
+       end) /\
+  (forall (a : args Q) (sched : list Q) (evs : list event),
+     simulate_full R ROps RExt (hargs Q R Q2R a) (map Q2R sched) evs
+     = match simulate_full Q QOps QExt a sched evs with
+       | inr e => inr e
+       | inl (c, (tr, st)) => inl (hcfg Q R Q2R c, (map (hentry Q R Q2R) tr, st))
+       end) /\
+  (forall (c : cfg Q) (sched : list Q) (s : state Q) (ks : list call),
+     run_calls R ROps (hcfg Q R Q2R c) (map Q2R sched) (hstate Q R Q2R s) ks
+     = map (hso Q R Q2R) (run_calls Q QOps c sched s ks)).
+Proof.
+  split; [exact transfer_simulate_Q_R|split;
+          [exact transfer_simulate_full_Q_R|exact transfer_run_calls_Q_R]].
+Qed.
+Print Assumptions C09_rational_runs_are_real_runs.
+
+(* ======================= the boundary of C09_main ======================= *)
+(* Inputs the constructor ACCEPTS but C09_main's explicit guards exclude.  Dropping exactly
+   one guard (all others hold) makes a conclusion of C09_main false; witnesses are computed
+   in the rational instance and carried to the reals by the theorem above. *)
+
+(* dt_init larger than the first scheduled interval: the schedule correction yields a
+   negative step and the clock runs backwards (schedule [0;1;2], dt_init 3/2: 3/2, 1). *)
+Theorem C09_main_without_first_interval_guard_refuted :
+  exists (a : args R) (sched : list R) (evs : list event) c tr st,
+    simulate R ROps a sched evs = inl (c, (tr, st)) /\
+    a_constant a = false /\ 0 < dt_min c /\ 0 <= a_rtol a /\ 0 <= a_atol a /\
+    well_separated (a_rtol a) (a_atol a) sched /\
+    ~ (a_dt_init a <= nth 1 sched 0 - nth 0 sched 0) /\
+    ~ StronglySorted Rlt (nth 0 sched 0 :: accepted R tr) /\
+    exists ev x o, In (ev, x, o) tr /\ dt x < 0.
+Proof. exact first_interval_guard_refuted. Qed.
+Print Assumptions C09_main_without_first_interval_guard_refuted.
+
+(* two scheduled times within tolerance of each other (schedule [0;1;51/50;3/2],
+   rtol 1/20): the loop finishes beyond the final time, which no accepted time is close to *)
+Theorem C09_main_without_separation_guard_refuted :
+  exists (a : args R) (sched : list R) (evs : list event) c tr,
+    simulate R ROps a sched evs = inl (c, (tr, Finished)) /\
+    a_constant a = false /\ 0 < dt_min c /\ 0 <= a_rtol a /\ 0 <= a_atol a /\
+    a_dt_init a <= nth 1 sched 0 - nth 0 sched 0 /\
+    ~ well_separated (a_rtol a) (a_atol a) sched /\
+    (exists t, In t (accepted R tr) /\ last sched 0 < t) /\
+    (forall t, In t (nth 0 sched 0 :: accepted R tr) ->
+       isclose R ROps c t (last sched 0) = false).
+Proof. exact separation_guard_refuted. Qed.
+Print Assumptions C09_main_without_separation_guard_refuted.
+
+(* dt_min = 0 (with the accepted under-relaxation factor 0): dt becomes 0 and the clock
+   stops advancing; "0 < dt_min" cannot be weakened to "0 <= dt_min" *)
+Theorem C09_main_without_dt_min_guard_refuted :
+  exists (a : args R) (sched : list R) (evs : list event) c tr st,
+    simulate R ROps a sched evs = inl (c, (tr, st)) /\
+    a_constant a = false /\ dt_min c = 0 /\ 0 <= a_rtol a /\ 0 <= a_atol a /\
+    well_separated (a_rtol a) (a_atol a) sched /\
+    a_dt_init a <= nth 1 sched 0 - nth 0 sched 0 /\
+    ~ StronglySorted Rlt (nth 0 sched 0 :: accepted R tr).
+Proof. exact dt_min_guard_refuted. Qed.
+Print Assumptions C09_main_without_dt_min_guard_refuted.
+
+(* non-positive tolerances: np.isclose degenerates to exact equality, i.e. the manager
+   behaves as one with zero tolerances (which C09_main covers).  Mixed signs are not
+   characterised. *)
+Theorem C09_nonpositive_tolerances_mean_equality :
+  forall (c : cfg R) (a b : R),
+    rtol c <= 0 -> atol c <= 0 -> isclose R ROps c a b = Reqb a b.
+Proof. exact nonpositive_tolerances_mean_equality. Qed.
+Print Assumptions C09_nonpositive_tolerances_mean_equality.
+
+(* ---------------- non-vacuity of the new theorems ---------------- *)
+(* constant step 1/2 on the schedule [0; 1; 3/2]: the complete constructor accepts, the
+   hypotheses of C09_constant hold, and the run finishes after exactly three steps *)
+Definition exc_args : args Q :=
+  Build_args Q (1 # 2)%Q true None 15 4 7 (7 # 10)%Q (13 # 10)%Q (1 # 2)%Q 10
+             (1 # 10000000000)%Q 0%Q.
+Definition exc_sched : list Q := [0; 1; 3 # 2]%Q.
+
+Example C09_constant_nonvacuous :
+  exists c tr,
+    simulate_full R ROps RExt (hargs Q R Q2R exc_args) (map Q2R exc_sched)
+                  [Converged 1; Converged 1; Converged 1; Converged 1]
+      = inl (c, (tr, Finished)) /\
+    length (accepted R tr) = 3%nat /\
+    a_constant (hargs Q R Q2R exc_args) = true /\
+    0 <= a_rtol (hargs Q R Q2R exc_args) /\ 0 <= a_atol (hargs Q R Q2R exc_args) /\
+    2 * (a_atol (hargs Q R Q2R exc_args)
+         + a_rtol (hargs Q R Q2R exc_args)
+           * Rabs (last (map Q2R exc_sched) 0 + a_dt_init (hargs Q R Q2R exc_args)))
+      < a_dt_init (hargs Q R Q2R exc_args).
+Proof.
+  assert (E : exists cq trq,
+             simulate_full Q QOps QExt exc_args exc_sched
+               [Converged 1; Converged 1; Converged 1; Converged 1] = inl (cq, (trq, Finished))
+             /\ length (accepted Q trq) = 3%nat).
+  { vm_compute. eexists _, _. split; reflexivity. }
+  destruct E as (cq & trq & Hs & Hl).
+  eexists _, _. split; [rewrite transfer_simulate_full_Q_R, Hs; reflexivity|].
+  rewrite (h_accepted Q R Q2R), map_length, Hl.
+  cbn [hargs a_constant a_rtol a_atol a_dt_init exc_args exc_sched map last].
+  repeat split; try (unfold Q2R; cbn [Qnum Qden]; lra).
+  unfold Q2R; cbn [Qnum Qden]. rewrite Rabs_pos_eq by lra. lra.
+Qed.
+
+(* the homomorphism hypotheses of C09_instance_independence are satisfiable: Q2R *)
+Example C09_instance_independence_nonvacuous :
+  morph Q R QOps ROps Q2R /\ morph_ext Q R QExt RExt Q2R.
+Proof. split; [exact Q2R_morph|exact Q2R_morph_ext]. Qed.
+
+(* the regression input of the repaired defect, executed in exact rational arithmetic *)
+Example C09_regression_rational :
+  match simulate Q QOps
+          (Build_args Q 1%Q false (Some ((1 # 10)%Q, 1%Q)) 15 4 7 (7 # 10)%Q (13 # 10)%Q
+                      (1 # 2)%Q 10 (1 # 10000000000)%Q 0%Q)
+          [0; 1; 3 # 2]%Q [Converged 5; Converged 5; Converged 5] with
+  | inl (_, (tr, st)) =>
+      stop_same st Finished &&
+      match accepted Q tr with
+      | [t1; t2] => Qeq_bool t1 1 && Qeq_bool t2 (3 # 2)
+      | _ => false
+      end
+  | inr _ => false
+  end = true.
+Proof. vm_compute. reflexivity. Qed.
+
+Example C09_nonpositive_tolerances_nonvacuous :
+  let c := Build_cfg R 1 false (1 / 10) 1 15 4 7 (7 / 10) (13 / 10) (1 / 2) 2 (-1) 0 in
+  rtol c <= 0 /\ atol c <= 0.
+Proof. cbn. split; lra. Qed.
